@@ -48,7 +48,8 @@ def cfg_constants(cfg):
               "  BytesOf <- BytesOfDef", "  PartsOf <- PartsOfDef", "  RetryDelays <- RetryDef",
               "  BatchN = %d" % cfg["batch_n"], "  BatchB = %d" % cfg["batch_b"],
               "  BatchT = %d" % (int(cfg["batch_t"] * 1e6) if cfg["batch_t"] else 0),
-              "  MaxAttempts = %d" % cfg["max_attempts"], "  Acks = %d" % cfg["acks"]]
+              "  MaxAttempts = %d" % cfg["max_attempts"], "  Acks <- AcksDef"]      # (a cfg file cannot hold -1)
+    defs.append("AcksDef == %s" % ("-1" if cfg["acks"] == -1 else str(cfg["acks"])))
     return defs, consts
 
 
